@@ -329,6 +329,16 @@ def run(ctx):
     from .c02 import rule_decoder_fast_path
     rule_decoder_fast_path(ctx, mir, rid="R01.10")
 
+    # ------------------------------------------------------------------ R01.11 (= R15.4)
+    from .c15 import rule_action_preconditions
+    from ..smgraph import Graph as _G, automaton as _aut
+    _a = _aut()
+    rule_action_preconditions(ctx, _index(), _G(_a), _a, rid="R01.11")
+
+    # ------------------------------------------------------------------ R01.12 (= R13.7)
+    from .c13 import rule_meta_charset
+    rule_meta_charset(ctx, mir, rid="R01.12")
+
     ctx.not_decided += ["bytes of captured text surviving decode/encode (stated exception of the property)", "arithmetic of Arena::shift / init_with (memory module unit tests)"]
     return ("Structural conditions of 'lexemes and raw gaps tile every chunk exactly once': construction sites and the five writers of "
             "Lexer.lexeme_start, EOF leaves of all %d automaton states, commit order and flush ordering on every CFG path of the dispatcher / "
